@@ -28,7 +28,7 @@ def contents(rng, custom_b):
 def gen_tree(rng, depth, custom_ok=True, fan=5):
     """-> nested python description"""
     if depth == 0 or rng.random() < 0.45:
-        kind = rng.choice(["plain", "html", "attach", "inline", "custom", "custom"])
+        kind = rng.choice(["plain", "html", "attach", "inline", "custom", "custom", "pre"])
         c = contents(rng, None)
         is_string = rng.random() < 0.5
         if is_string:
@@ -44,6 +44,10 @@ def gen_tree(rng, depth, custom_ok=True, fan=5):
         elif kind == "custom":
             d["a1"] = rng.choice(CTYPES)
             d["a2"] = rng.choice([None, None, b"base64", b"quoted-printable", b"binary", b"8bit"])
+        elif kind == "pre":
+            d["a1"] = rng.choice(CTYPES)
+            encs = [b"!", b"base64", b"quoted-printable", b"7bit", b"binary"]
+            d["a2"] = rng.choice(encs) + b"," + rng.choice(encs[:3])
         return d
     kind = rng.choice(["mixed", "alternative", "related", "signed", "encrypted"])
     d = {"t": "M", "kind": kind, "boundary": None, "kids": []}
@@ -65,6 +69,8 @@ def toks(d, bounds=None):
         a1 = hx(d.get("a1", b"")) if d.get("a1") is not None else "-"
         if d["kind"] == "custom":
             a2 = "!" if d.get("a2") is None else hx(d["a2"])
+        elif d["kind"] == "pre":
+            a2 = hx(d["a2"])
         else:
             a2 = hx(d.get("a2", b"")) if d.get("a2") is not None else "-"
         return "S %s %s %s %d %s" % (d["kind"], a1, a2, 1 if d["is_string"] else 0, hx(d["content"]))
@@ -145,7 +151,7 @@ def expected_fields(d):
     k = d["kind"]
     if d["t"] == "M":
         return ["content-type"]
-    if k in ("plain", "html", "custom"):
+    if k in ("plain", "html", "custom", "pre"):
         return ["content-type", "content-transfer-encoding"]
     if k == "attach":
         return ["content-disposition", "content-type", "content-transfer-encoding"]
@@ -263,7 +269,8 @@ def run(ctx):
         f = r.split("\t")
         if bounds is None:
             # the implementation refused / panicked: the model must agree that this input is outside (Panic)
-            if not m.startswith("PANIC"):
+            want = "PANIC" if r.startswith("PANIC") else r
+            if not m.startswith(want):
                 cbad.append((i, "implementation answered %r, model %r" % (r[:60], m[:60])))
             ctx.cls("impl-panic-or-error")
             continue
